@@ -323,6 +323,7 @@ def run(ctx, F, rule="E-RAW"):
     check_probe_exits(ctx, F)
     check_rehash(ctx, F)
     check_len_inventory(ctx, F)
+    check_len_zero_tests(ctx, F)
 
 
 def check_slot_clone(ctx, F, rule="E-RAW.clone"):
@@ -703,4 +704,58 @@ def check_len_inventory(ctx, F, rule="E-RAW.len"):
         if name not in seen:
             n += 1
             ctx.ob(rule, "%s:%s" % (rule, name), False, "%s no longer updates the element count (expected %s)" % (name, exp))
+    return n
+
+
+def check_len_zero_tests(ctx, F, rule="E-RAW.lenzero"):
+    """The `len == 0` shortcuts of the table and its iterators (`clear`, `retain`, `next`, ...): the constant compared
+    with an element count is 0, and the `count is zero` edge leads straight to a return -- no slot is visited from
+    it.  A flipped test makes the function skip its work exactly when there is work (an iterator that yields nothing, a
+    `clear` that clears nothing) or walk the slot array past its elements."""
+    n = 0
+    for fid, m in sorted(F.mir.items()):
+        if not fid.startswith("linear_hashtbl::raw::") or "::test::" in fid:
+            continue
+        B = cfg.Body(m)
+        blocks = m["blocks"]
+        # locals holding a copy of a `.len` field
+        lens = set()
+        for i in sorted(B.reach):
+            for s in blocks[i]["s"]:
+                rv = s.get("rv") or {}
+                if isinstance(s.get("lhs"), int) and rv.get("k") == "use" and re.search(r"\.len@linear_hashtbl::raw::", str(rv.get("op"))):
+                    lens.add(s["lhs"])
+        if not lens:
+            continue
+        slot_ops = [i for i, t in B.calls() if not blocks[i]["c"] and
+                    re.search(r"::(get_unchecked|get_unchecked_mut|iter_mut|assume_init_drop|assume_init_read|assume_init_ref|assume_init_mut|offset|add)$",
+                              cfg.callee_name(t) or "")]
+        for i in sorted(B.reach):
+            b = blocks[i]
+            if b["c"]:
+                continue
+            for s in b["s"]:
+                rv = s.get("rv") or {}
+                if rv.get("k") == "bin" and rv.get("o") in ("Eq", "Ne") and isinstance(s.get("lhs"), int):
+                    a = cfg.op_place(rv.get("a"))
+                    c = cfg.const_int(rv.get("b"))
+                    if a in lens and c is not None:
+                        t = b["t"]
+                        if t["k"] != "switch" or cfg.op_place(t.get("d")) != s["lhs"]:
+                            continue
+                        n += 1
+                        zero = [blk for v, blk in t["t"] if str(v) == "0"]
+                        empty_edge = [t.get("o")] if rv["o"] == "Eq" else zero
+                        reach = set()
+                        for x in empty_edge:
+                            if x is not None:
+                                reach |= B.reachable_from(x, avoid=(i,))
+                        touched = [j for j in slot_ops if j in reach]
+                        ok = c == 0 and not touched
+                        ctx.ob(rule, "%s:%s#%d" % (rule, short(F, fid), n), ok,
+                               "%s (%s): %s" % (short(F, fid), F.where(fid),
+                                                "`len == 0` leads straight out" if ok else
+                                                ("an element count is compared with %d (expected 0)" % c) if c != 0 else
+                                                "slots are visited on the `len == 0` edge (the emptiness test is inverted): the function "
+                                                "skips its work when there are elements"))
     return n
